@@ -23,7 +23,11 @@ R = Registry(
         "cancellation: every __aexit__/close-like coroutine of ext.asyncio either awaits its clean-up through "
         "asyncio.shield(create_task(...)) or is a reasoned exemption; the async result accessors carry the "
         "documented _only_one_row flags (shared with C10-R1); garbage-collection clean-up of an async "
-        "connection performs no driver IO (no reset, terminate-only)."
+        "connection performs no driver IO (no reset, terminate-only); cancellation width: every undo-and-re-raise "
+        "handler of the pool's accounting code (pool/base.py, pool/impl.py) catches BaseException (CancelledError / "
+        "GreenletExit are not Exceptions) and greenlet_spawn throws every BaseException of the awaited call into the "
+        "greenlet; filtered views (scalars()/mappings()) of sync and async results are built from the object on which "
+        "unique()/columns() stored their state."
     ),
     not_decided="result equality of whole programs run both ways; cancellation at every await point (dynamic); driver adapters.",
 )
